@@ -181,7 +181,24 @@ def run_call(kind, cs, fault, at, children=(), outer='latin1'):
                                   use_cs, fault, at, 'raised' if not ok else 'ok', e)))
                 break
     else:
-        mid = mido.MidiFile(charset=use_cs)
+        # the charset is an ordinary attribute of the file: given to the constructor, or
+        # assigned later; the file may also have been duplicated (copy / deepcopy / pickle)
+        variant = (len(cs) + at + len(fault)) % 4
+        try:
+            if variant == 1:
+                mid = mido.MidiFile()
+                mid.charset = use_cs
+            elif variant == 3:
+                mid = mido.MidiFile(charset='cp437')
+                mid.charset = use_cs
+            else:
+                mid = mido.MidiFile(charset=use_cs)
+        except LookupError:
+            if fault != 'unknown_charset':
+                raise
+            # refusing an unknown charset early is as good as refusing it in save()
+            e = elsewhere()
+            return [('charset-leak/constructor', e)] if e else probs
         tr = mido.MidiTrack()
         realised = fault in ('none', 'unknown_charset')
         for i in range(1, 4):
@@ -209,6 +226,14 @@ def run_call(kind, cs, fault, at, children=(), outer='latin1'):
             mid.type = 0
             mid.tracks.append(mido.MidiTrack())       # fails before any event is written
             realised = True
+        if variant == 2 and not children:
+            import copy
+            import pickle
+            k = (at + len(cs)) % 3
+            try:
+                mid = copy.copy(mid) if k == 0 else copy.deepcopy(mid) if k == 1 else pickle.loads(pickle.dumps(mid))
+            except Exception as e:
+                probs.append(('duplicate-raises/%s' % type(e).__name__, 'copy/deepcopy/pickle of a MidiFile raised %r' % (e,)))
         buf = io.BytesIO()
         ok = True
         inside = None
